@@ -526,8 +526,31 @@ func ruleReorgReachesNewTip(c *report.Ctx) {
 		// load of <currentBest>.Hash, or a field read of the parameter value
 		switch x := v.(type) {
 		case *ssa.UnOp:
-			if fa, ok := x.X.(*ssa.FieldAddr); ok && cell != nil && fa.X == cell {
+			fa, ok := x.X.(*ssa.FieldAddr)
+			if !ok || cell == nil {
+				return false
+			}
+			if fa.X == cell {
 				return true
+			}
+			// a copy of the tip handed to a helper by value (the helper's parameter cell, initialised from ours)
+			if c2, isAlloc := fa.X.(*ssa.Alloc); isAlloc && c2.Referrers() != nil {
+				for _, r := range *c2.Referrers() {
+					st, isSt := r.(*ssa.Store)
+					if !isSt || st.Addr != ssa.Value(c2) {
+						continue
+					}
+					v := st.Val
+					if cv, isCv := v.(*ssa.ChangeType); isCv {
+						v = cv.X
+					}
+					if v == ssa.Value(cur) {
+						return true
+					}
+					if ld, isLd := v.(*ssa.UnOp); isLd && ld.Op == token.MUL && ld.X == cell {
+						return true
+					}
+				}
 			}
 		case *ssa.Field:
 			return x.X == ssa.Value(cur)
@@ -745,10 +768,39 @@ func rulePassphraseHashedWhole(c *report.Ctx) {
 	p := c.P
 	c.Rule("passphrase-hashed-whole", "in the passphrase checks (AddrManager.checkPassword, SecretKey.DeriveKey/deriveKey and the salted-hash producers) the passphrase bytes reach the hash / KDF whole: they are never copied into a fixed-size buffer and never sliced to a constant bound — a truncating copy makes every passphrase that merely starts with the right one pass the unlocked-state comparison", 2)
 	var fs []*ssa.Function
-	for _, spec := range [][3]string{{pkgKeystore, "AddrManager", "checkPassword"}, {pkgSnacl, "SecretKey", "DeriveKey"}, {pkgSnacl, "SecretKey", "deriveKey"}} {
+	for _, spec := range [][3]string{{pkgKeystore, "AddrManager", "checkPassword"}, {pkgSnacl, "SecretKey", "DeriveKey"}} {
 		if f := fn(c, spec[0], spec[1], spec[2]); f != nil {
 			fs = append(fs, f)
 		}
+	}
+	// whatever hands the passphrase to the KDF (SecretKey.deriveKey today): the functions of snacl that call scrypt.Key
+	nKDF := 0
+	for _, f := range p.ModFuncs {
+		if pk := an.FuncPkg(f); pk == nil || pk.Path() != pkgSnacl {
+			continue
+		}
+		callsKDF := false
+		an.Instrs(f, func(in ssa.Instruction) {
+			if cc := an.CallOf(in); cc != nil && cc.StaticCallee() != nil && an.CanonKeyOf(cc.StaticCallee()) == "golang.org/x/crypto/scrypt.Key" {
+				callsKDF = true
+			}
+		})
+		if !callsKDF {
+			continue
+		}
+		nKDF++
+		dup := false
+		for _, g := range fs {
+			if g == f {
+				dup = true
+			}
+		}
+		if !dup {
+			fs = append(fs, f)
+		}
+	}
+	if nKDF == 0 {
+		c.Lost("snacl: the call of scrypt.Key")
 	}
 	// producers of the salted hash the unlocked comparison is made against
 	am := p.Type(pkgKeystore, "AddrManager")
